@@ -55,6 +55,7 @@ func checkC08(cx *Ctx, r *Report) {
 	w, fx := cx.W, cx.Fx
 	// the request is judged against the provider storage returns now (a provider removed since the last request must be refused)
 	cx.checkProviderFromStorage(r, kSSO)
+	cx.checkStorageIsTheApplications(r)
 	r.Clauses = []string{
 		"persist last, once: Storage.CreateAuthRequest has exactly one call site in the SSO handler's scope, inside the last step of the chain; no error callback, no earlier step and nothing after the chain can persist",
 		"unanswerable requests are rejected before persistence: the supported-binding decision is a step in front of the persist step, and after the chain the only possible outcome is the 303 redirect to the login URL of the identifier storage returned",
